@@ -119,4 +119,23 @@ PROPS = {
         "assumptions": ["names reach the text parsers as fully hex-escaped quoted strings, so the escape handling of C11 is not involved"],
         "partial": [],
     },
+    "C04": {
+        "profiles": ["debug"],
+        "rule": "random possibly-recursive environments, a type t with up to three generated inhabitants, and an upgrade chain t, t1, t2, t3 built from random upgrade steps (add/remove optional field, add variant case, nat->int, widen to opt/reserved, "
+                "generalise function arguments, specialise results, replace by a name); for every (t, t_k): the subtype verdict and the decoding of every inhabitant encoded at t and decoded at t_k; "
+                "oracles on the implementation: the decoded value inhabits t_k (re-encodes and reads back unchanged), two-step decoding through t1/t2 differs from direct decoding only by opt/null; "
+                "non-trivial = the two types differ; distinct = distinct request lines",
+        "trusted": [
+            "checker model Sub.subAlg and greatest-fixed-point oracle (C05), specification decoder and coercion (C02), encoder model (C03)",
+            "the specification column flags `!unsound` when its own relation accepts a pair and its own coercion fails on a generated inhabitant, so an unsound rule is reported even if implementation and model agree on it",
+        ],
+        "assumptions": [
+            "native decoding at Rust types is covered by C08 (native = untyped) rather than here",
+            "chains whose environment contains an options-all-the-way-down type are excluded from the coherence oracle (known finding KF-C04-mu-opt); the pair op still reports them under that finding",
+        ],
+        "partial": [
+            "soundness `Sub t t' -> v : t -> coerce t t' v succeeds` for all types and values is not yet a theorem: proved are the rules for reserved, nat<:int, primitives, null/reserved<:opt, and the mechanism lemma that an option position never propagates a coercion failure; the rest is established on the generated pairs only",
+            "coherence is checked on the implementation only",
+        ],
+    },
 }
